@@ -236,7 +236,7 @@ def run(ctx):
                 "and 3 s pass: no event of the abandoned spa object may reach the client; after exit nothing is open or alive; after a reset the manager must reconnect; "
                 "the model's accounting predicate is evaluated on every observed ledger; plus runs of consecutive reconnect cycles under faults; "
                 "non-trivial = crash point inside LOCATING / CONNECTING / an error state")
-    ctx.prove(extra_targets=["Model/LedgerChk.vo"], timeout=1800)
+    ctx.prove(extra_targets=["Model/LedgerChk.vo"], timeout=600)
     obs_all, meta = [], []
     for variant in (0, 1, 2):
         base = crash_run(variant, -1, None)
